@@ -9,7 +9,7 @@ RULE = ("tie-free images >= 3x3: random permutations of distinct values (noisy),
         "16-64 threads each thread owns a few pixels) and up to 512x512 otherwise; labels and work buffers "
         "pre-filled with poison (-7/77, 0, previous result); thread counts {1,2,3,7,16,48,64} x 4 repeats; sparse: "
         "the same image restricted to an interior mask with gaps through sparse_localmaxlabel, sparse_localmax and "
-        "SparseScan.lmlabel; oracle = vectorised steepest-ascent reference (argmax of the 3x3 window, pointer "
+        "SparseScan.lmlabel (single calls and raw/smoothed/raw/smoothed histories on one scan object); oracle = vectorised steepest-ascent reference (argmax of the 3x3 window, pointer "
         "jumping); non-trivial = an ascent path longer than 4 pixels that ends in another thread's block (for the "
         "largest thread count of the case); distinct = hash of the case")
 ASSUMPTIONS = ["images have no equal-valued neighbours (constructed); border pixels are background and an ascent "
@@ -274,6 +274,37 @@ def check_sparse(case, rec=None):
                               "first frame's count", fn="lmlabel"))
     else:
         fails.append(exc_failure("SparseScan.lmlabel", e))
+    # ---- history on one scan object: raw, smoothed, raw again (work arrays must not alias the data)
+    if not fails:
+        from scipy import ndimage
+        vi = np.rint(v).astype(np.float32)                      # integer valued: the 1/16 smoothing is exact
+        di = np.zeros((ns, nf))
+        di[i, j] = vi
+        sm = ndimage.convolve(di, np.array([[1., 2, 1], [2, 4, 2], [1, 2, 1]]) / 16.0, mode="constant")[i, j]
+        sc = object.__new__(sparseframe.SparseScan)
+        sc.names = ["row", "col", "intensity"]
+        sc.nnz = np.array([nnz, nnz])
+        sc.ipt = sparseframe.nnz_to_pointer(sc.nnz)
+        sc.row = np.concatenate([i, i])
+        sc.col = np.concatenate([j, j])
+        sc.intensity = np.concatenate([vi, vi])
+        keep = sc.intensity.copy()
+        for step, smooth in enumerate((False, True, False, True)):
+            ok, e = guard(sc.lmlabel, 0, True, smooth)
+            if not ok:
+                fails.append(exc_failure("SparseScan.lmlabel(smooth=%s) step %d" % (smooth, step), e))
+                break
+            if not np.array_equal(sc.intensity, keep):
+                fails.append(fail("history", "SparseScan.lmlabel(smooth=%s) at step %d of the history modified the "
+                                  "intensity array" % (smooth, step), fn="lmlabel"))
+                break
+            expsig = sm if smooth else vi
+            if np.abs(np.asarray(sc.signal[:nnz], float) - expsig).max() > 1e-5 * (1 + np.abs(expsig).max()):
+                fails.append(fail("history", "SparseScan.lmlabel(smooth=%s) at step %d labelled a signal that is "
+                                  "neither the raw nor the smoothed intensity" % (smooth, step), fn="lmlabel"))
+                break
+            if not smooth and np.array_equal(vi, v):
+                cmp("SparseScan.lmlabel (history step %d)" % step, int(sc.nlabels[0]), sc.labels[:nnz])
     if rec is not None:
         rec.case(case, case["gap"] > 0 and nexp >= 2, ["sparse", "gap:%g" % case["gap"]])
     return fails
